@@ -9,6 +9,7 @@ C14 — hand model of the diffraction-pattern geometry code around the generated
                       `_ensure_parity_of_gpts`        → `ensureParityOfGpts` (the `even` arguments generated)
                       `BaseWaves._gpts_within_angle`  → `gptsWithin` (numeric branch generated)
                       `BaseWaves._diffraction_pattern`→ `diffractionPattern` (crop, then optional fftshift)
+  abtem/measurements.py `DiffractionPatterns._crop`   → `cropMethod1`, `cropMethod`
   abtem/measurements.py `DiffractionPatterns.limits`  → `limits` (generated), `angular_coordinates` → `angularCoords`
                       `block_direct` / `_bandlimit`   → `effectiveRadius`, `keepQ`, `blockDirect`
 
@@ -102,6 +103,17 @@ differs, then optionally centre -/
 def diffractionPattern (nx ny : Nat) (x : List Int) (mx my : Nat) (shift : Bool) : Except String (List Int) :=
   let c := if (nx, ny) ≠ (mx, my) then crop2d nx ny x mx my else .ok x
   c.map fun y => if shift then fftshift2 mx my y else y
+
+/-- `DiffractionPatterns._crop(array, gpts, fftshift)` on one axis: un-shifted patterns are cropped in storage order,
+centred ones between `ifftshift` and `fftshift` (test and direct return generated) -/
+def cropMethod1 (x : List Int) (n2 : Nat) (shifted : Bool) : Except String (List Int) :=
+  if cropDirectTest shifted then (crop1d x n2).map cropDirectReturn
+  else (crop1d (ifftshift x) n2).map fftshift
+
+/-- the same on a row-major flat `nx × ny` pattern -/
+def cropMethod (nx ny : Nat) (x : List Int) (mx my : Nat) (shifted : Bool) : Except String (List Int) :=
+  if cropDirectTest shifted then (crop2d nx ny x mx my).map cropDirectReturn
+  else (crop2d nx ny (ifftshift2 nx ny x) mx my).map (fftshift2 mx my)
 
 /-! ### parity of the cropped shape -/
 
